@@ -79,6 +79,9 @@ fn new_koto(cap: &Capture, limit_ms: u64) -> Koto {
     );
     // serde path (koto_serde::SerializableKValue) reachable from scripts
     koto.prelude().insert("json", koto_json::make_module());
+    koto.prelude().insert("yaml", koto_yaml::make_module());
+    koto.prelude().insert("toml", koto_toml::make_module());
+    add_host_objects(koto.prelude());
     koto
 }
 
@@ -683,3 +686,4 @@ include!("c19_parts/stress.rs");
 include!("c19_parts/table.rs");
 include!("c19_parts/run.rs");
 include!("c19_parts/reentrant.rs");
+include!("c19_parts/objects.rs");
